@@ -68,11 +68,14 @@ def model_text(model, limit=6000):
 
 def verify_one(args):
     """Worker: verify one contract (by registry position). Returns a plain dict."""
-    repo_root, target, index, use_cache, rlimit = args
+    repo_root, target, index, use_cache, rlimit, timeout = args
     t0 = time.time()
     out = {"target": target, "index": index, "obligations": [], "error": None, "unsupported": None}
     try:
+        import itertools
         import z3
+        import pyvc.values as _vals
+        _vals._counter = itertools.count()      # deterministic symbol names per contract (stable SMT behaviour and cache keys)
         from pyvc.extract import Repo, numba_absent
         from pyvc.solve import check_valid, satisfiable
         from pyvc.symex import Engine
@@ -115,7 +118,7 @@ def verify_one(args):
             key = hashlib.sha256((ver + smt2).encode()).hexdigest()
             rec = _cache_get(key) if use_cache else None
             if rec is None:
-                r = check_smt2(smt2, want_model=True)
+                r = check_smt2(smt2, want_model=True, timeout=timeout)
                 rec = {"status": r["status"], "backend": r["backend"], "time_s": round(r["time_s"], 4), "reason": r.get("reason", "")}
                 if r["status"] == "refuted":
                     rec["model"] = (r.get("model") or "")[:8000]
@@ -135,11 +138,11 @@ def verify_one(args):
     return out
 
 
-def run(repo_root, selection, jobs=16, use_cache=True, rlimit=None):
+def run(repo_root, selection, jobs=16, use_cache=True, rlimit=None, timeout=None):
     """selection: list of (target, index). Returns list of worker results."""
     from pyvc.solve import RLIMIT_QUICK
     rl = rlimit or RLIMIT_QUICK
-    tasks = [(repo_root, t, i, use_cache, rl) for t, i in selection]
+    tasks = [(repo_root, t, i, use_cache, rl, timeout) for t, i in selection]
     results = []
     if not tasks:
         return results
